@@ -21,6 +21,8 @@ def expectedVerifySteps : List (String × String) := [
   ("set info.salt1 = dec.Header().WALSalt1", ""),
   ("set info.salt2 = dec.Header().WALSalt2", ""),
   ("set info.prevCommit = dec.Header().Commit", ""),
+  ("set info.reason = \"previous checkpoint failed after it ran, snapshotting\"", "exec.state.checkpointUnresolved"),
+  ("return info,nil", "exec.state.checkpointUnresolved"),
   ("return error", "err != nil"),
   ("set exec.state.truncatePassiveFailed = false", "!(err != nil) && info.offset > fi.Size()"),
   ("readWALHeader(db.WALPath())", "!(err != nil) && info.offset > fi.Size() && exec.state.syncedToWALEnd"),
